@@ -396,6 +396,19 @@ def hoist_if(repo: Repo, chk: Check) -> None:
             ("no-launch-in-between", not_before2),
         ],
     )
+    # operands must be available inside the if: the pattern must look at where the setup's values are defined
+    first = next((s_ for s_, _ in sites if s_.reachable), None)
+    avail = None
+    if first is not None:
+        for fact in first.facts:
+            if fact.kind == "forall" and fact.domain is not None and norm.any_match(["$op.values", "$op.operands"], fact.domain, {"op": op}) is not None:
+                txt = fact.text
+                if "get_operation_index" in txt or "is_before_in_block" in txt or "val_is_defined" in txt or "dominat" in txt:
+                    avail = fact
+    chk.result(avail is not None, "C01.hoist-if", f"{f.key}:values-available-in-if", first.where() if first else f.where,
+               "every value of the setup is known to be defined before the scf.if (position test over op.values)",
+               "no guard relates the definitions of the setup's values to the position of the scf.if: a value computed between the scf.if and the "
+               "setup is used before its definition after sinking", first.fact_texts if first else [])
     # clone placement and yield rewrite
     ins = [s for s in fl.calls("insert_op") if s.reachable]
     ok_place = False
